@@ -214,6 +214,44 @@ def r6_priority_only_when_passthrough_now(chk, rid="R6"):
         r.require(cfg, 2, "push_priority sites")
 
 
+def r7_directional_keys(chk):
+    r = chk.rule("R7", "the two directions of a CURVE connection use different keys", "T9 the two key operands are distinct values",
+                 "wherever a pair (rx key, tx key) is built or handed to the data cipher, the two components are different values: "
+                 "one key for both directions makes record n of one direction a valid record n of the other (reflection) and reuses the keystream")
+    for cfg, prog in chk.configs(needs=("full-linux", "full")):
+        n = 0
+        for body in prog.bodies.values():
+            if "security::curve" not in body.path or "::tests" in body.path:
+                continue
+            pairs = []
+            # Ok((rx, tx)) of a key-pair producing function, and the two key arguments of the cipher constructor
+            for blk, i, st in body.aggregates():
+                rv = st["r"]
+                if rv.get("ak") == "tuple" and len(rv["ops"]) == 2 and all(o["c"] in ("copy", "move") and o["p"]["ty"] == "[u8; 32]" for o in rv["ops"]):
+                    pairs.append((blk, rv["ops"][0], rv["ops"][1], "key pair"))
+            for c in body.calls:
+                if c.callee.endswith("CurveDataCipher::new") and len(c.args) == 2:
+                    pairs.append((c.blk, c.args[0], c.args[1], "CurveDataCipher::new"))
+            for blk, a, b_, what in pairs:
+                n += 1
+                key = "%s|%s components are distinct" % (short(body.path), what)
+                oa, ob = body.value_origin(a), body.value_origin(b_)
+                same = False
+                if oa[0] == ob[0] == "place" and oa[1]["l"] == ob[1]["l"] and oa[1]["pr"] == ob[1]["pr"]:
+                    same = True
+                if oa[0] == ob[0] == "call" and oa[1].blk == ob[1].blk:
+                    same = True
+                pa, pb = body.provenance(a), body.provenance(b_)
+                if pa == pb and not pa.startswith("const") and oa[0] != "other":
+                    same = True
+                if same:
+                    r.bad(cfg, key, where(body, blk), "both directions get the same key (`%s`): a record sent by one side is a valid record for that same side at the same index (an on-path attacker reflects it and it is delivered as a message from the peer), and equal plaintexts at equal indexes give identical bytes" % pa[-80:])
+                else:
+                    r.ok(cfg, key, where(body, blk), "rx <- %s, tx <- %s" % (pa[-40:], pb[-40:]))
+        if cfg in ("full-linux", "full"):
+            r.require(cfg, 2, "rx/tx key pairs in security::curve")
+
+
 def run(chk):
     chk.undecided = ["confidentiality / integrity as cryptographic properties", "correctness of snow and dryoc (trusted)"]
     r1_no_truncation(chk)
@@ -222,3 +260,4 @@ def run(chk):
     r4_decrypt_propagates(chk)
     r5_session_keys(chk)
     r6_priority_only_when_passthrough_now(chk)
+    r7_directional_keys(chk)
